@@ -926,6 +926,10 @@ def run(pid, tier, replay=None):
         rc_ = minedblocks.stage(chk, quick, rng, pid)
         if rc_:
             return rc_
+        from checks import wireforms
+        rc_ = wireforms.stage(chk, quick, rng, pid)
+        if rc_:
+            return rc_
     if pid in ("C01", "C02", "C05"):
         # ---- the verdict of full validation is a function of (block, chain, clock) -- also while the miner's thread assembles a candidate
         #      from the same chain state and a pending transaction (Interfere.tla; preemption-point exploration on real threads)
